@@ -160,14 +160,21 @@ def run_case(case, ctx):
     ctx.tag('cls:' + case['cls'])
     cliques = [tuple(c) for c in case['cliques']]
     size = lambda t: [shape[attrs.index(a)] for a in t]
+    # LocalInference hands a ready-made oracle object its total by assignment (model.total = total): in a third of the
+    # cases the oracle is therefore built with another total and gets the real one assigned afterwards
+    late_total = (case['pot_seed'] % 3 == 0)
+    t0 = 1.0 if (late_total and total != 1.0) else (17.0 if late_total else total)
     with np.errstate(all='ignore'):
         if kind in ('norm_fg', 'exact_lbp'):
-            oracle = m.FactorGraph(dom, cliques, total, convex=False, iters=case['sweeps'])
+            oracle = m.FactorGraph(dom, cliques, t0, convex=False, iters=case['sweeps'])
             regions = list(cliques)
         else:
-            oracle = m.RegionGraph(dom, cliques, total, convex=(kind == 'norm_rg_convex'), iters=case['sweeps'],
+            oracle = m.RegionGraph(dom, cliques, t0, convex=(kind == 'norm_rg_convex'), iters=case['sweeps'],
                                    convergence=0.0 if kind == 'norm_rg_convex' else 1e-3, damping=case['damping'])
             regions = list(oracle.cliques)
+        if late_total:
+            oracle.total = total
+            ctx.tag('total_assigned_after_construction')
     if len(regions) < 2 and int(np.prod(shape)) < 2:
         ctx.trivial = True
     maximal = [r for r in regions if not any(set(r) < set(o) for o in regions)]
